@@ -89,3 +89,10 @@ Proof.
 Qed.
 
 Print Assumptions g_contains_intersects.
+
+(* ... and for every receiver when the argument is a point: Contains and Intersects are one function *)
+Theorem g_contains_point_intersects (a : shape) (q : pt) :
+  g_contains (g_of_shape a) (GPoint q) = Some true -> g_intersects (g_of_shape a) (GPoint q) = true.
+Proof.
+  destruct a as [p|r|ps|e hs]; cbn [g_of_shape g_contains g_intersects ob]; intros H; injection H as H'; exact H'.
+Qed.
